@@ -57,7 +57,7 @@ void xd_call(xd_t *d, fact_t fact, trans_t trans, yes_no_t refact)
     LIB(x->vt->gssvx(x->P, &d->opt, &x->M->A, x->perm_c, x->perm_r, &d->equed, d->R, d->C, &x->L, &x->U, &d->B, &d->X,
                      &d->rpg, &d->rcond, d->ferr, d->berr, &d->mu, &d->info));
     sched_end_factor();
-    int t1 = count_tasks();
+    int t1 = tasks_after(t0);
     if (t0 != t1) verdict_fail("C04:thread_count_changed", "threads before the expert driver call %d, after %d", t0, t1);
     x->info = d->info; x->have_LU = 1;
 }
